@@ -18,9 +18,9 @@ import (
 
 func init() {
 	ev.Register(&ev.Check{
-		ID:    "C15",
-		Level: "exploration",
-		Rule: "every Check-accepted case of the C01 (all rule-free schemas <= 3/4 nodes, both configs), C03 (type references, or, allOf, additionalProperties, key shortcuts), C04 (34 rule slots x 13 contexts) and C09 (all fully inhabited type graphs over 1-2 types + ring/diamond families with optional/array/terminating edges, recursive child first/middle/last/only) generators plus the deep C09 family (two types, every pair of slots per object body, 7 roots) and hostile keys/strings: Example() must return nil error and bytes accepted by the reference PDA and encoding/json; Validate(Example()) on the same schema must succeed; for plain-JSON examples the bytes must equal the generator's compact rendering. Non-trivial = distinct accepted schema (rendered text + environment).",
+		ID:          "C15",
+		Level:       "exploration",
+		Rule:        "every Check-accepted case of the C01 (all rule-free schemas <= 3/4 nodes, both configs), C03 (type references, or, allOf, additionalProperties, key shortcuts), C04 (34 rule slots x 13 contexts) and C09 (all fully inhabited type graphs over 1-2 types + ring/diamond families with optional/array/terminating edges, recursive child first/middle/last/only) generators plus the deep C09 family (two types, every pair of slots per object body, 7 roots) and hostile keys/strings: Example() must return nil error and bytes accepted by the reference PDA and encoding/json; Validate(Example()) on the same schema must succeed; for plain-JSON examples the bytes must equal the generator's compact rendering. Non-trivial = distinct accepted schema (rendered text + environment).",
 		Run:         run,
 		Replay:      replay,
 		QuickBudget: 80 * time.Second,
